@@ -931,3 +931,15 @@ func stringConst(v ssa.Value) (string, bool) {
 	}
 	return s, true
 }
+
+
+// instrReaches: some execution can run a and later b.
+func instrReaches(a, b ssa.Instruction) bool {
+	if a.Block() == b.Block() {
+		if instrIndex(a) < instrIndex(b) {
+			return true
+		}
+		return inCycle(a.Block())
+	}
+	return reachable(a.Block(), nil)[b.Block()]
+}
